@@ -59,6 +59,15 @@ pub fn check(cx: &Cx, rep: &mut Report) {
     let mut sub = Report::default();
     c14::check(cx, &mut sub);
     adopt(rep, sub, "R5", "c14", |v| v.rule == "R3");
+    // R6 (broker): a failed subscriber must not cost the healthy ones their deliveries
+    let mut sub = Report::default();
+    super::c09::check(cx, &mut sub);
+    if let Some(n) = sub.premises.get("C09.R1.subscribed_exactly_once") {
+        rep.premise_n("C06.R6.healthy_subscribers_still_served", *n);
+    }
+    for v in sub.violations.into_iter().filter(|v| v.rule == "R1" || v.rule == "R6") {
+        rep.fail(P, "R6", format!("c09:{}:{}", v.rule, v.sig), v.msg, v.at);
+    }
     // R2: awaiting a failed actor yields an error, join yields None
     for af in fx.values() {
         if ix.task_of(af.tag) != Some(af.task) {
